@@ -200,7 +200,12 @@ func c37(c *Ctx) {
 				}
 			})
 			if dot == "" {
-				c.Fail("reject-before", un+": '.' inside a label", fn.Pos(), "no comparison of a message byte with '.'")
+				// the same scan written with a library search: slices.Contains(msg[a:b], '.') / bytes.IndexByte(msg[a:b], '.') >= 0
+				if found := containsByteEdge(fn, "$0", 46); found.F != nil {
+					c.NeverAfter(un, found, accept, true)
+				} else {
+					c.Fail("reject-before", un+": '.' inside a label", fn.Pos(), "no comparison of a message byte with '.'")
+				}
 			} else {
 				c.NeverAfter(un, c.Edge(dot+" == 46"), accept, true)
 			}
@@ -363,4 +368,75 @@ func c37(c *Ctx) {
 		Calls:  []string{dm + "unpackUint16", dm + "unpackUint32", dm + "unpackType", dm + "unpackClass"},
 		Fields: []string{dm + "header.questions", dm + "header.answers", dm + "header.authorities", dm + "header.additionals", dm + "Parser.resHeaderLength"},
 	}, nil)
+}
+
+// containsByteEdge selects the branch edges on which a library search found byte k in a slice of
+// the parameter base: slices.Contains(base[a:b], k) true, bytes.IndexByte(base[a:b], k) >= 0 / != -1.
+func containsByteEdge(fn *ssa.Function, base string, k int64) Sel {
+	var out []ssa.Instruction
+	isSearch := func(v ssa.Value) bool {
+		call, ok := v.(*ssa.Call)
+		if !ok {
+			return false
+		}
+		n := CalleeName(&call.Call)
+		if i := strings.Index(n, "["); i > 0 {
+			n = n[:i]
+		}
+		if n != "slices.Contains" && n != "bytes.IndexByte" && n != "slices.Index" {
+			return false
+		}
+		args := call.Call.Args
+		if len(args) != 2 {
+			return false
+		}
+		sl, isSl := args[0].(*ssa.Slice)
+		kc, isK := args[1].(*ssa.Const)
+		if !isSl || !isK || Term(sl.X) != base {
+			return false
+		}
+		kv, ok := IntOf64(kc)
+		return ok && kv == k
+	}
+	ForEachInstr(fn, func(in ssa.Instruction) {
+		ifi, ok := in.(*ssa.If)
+		if !ok {
+			return
+		}
+		cond, neg := ifi.Cond, false
+		for {
+			if u, isU := cond.(*ssa.UnOp); isU && u.Op == token.NOT {
+				cond, neg = u.X, !neg
+				continue
+			}
+			break
+		}
+		idx := -1
+		if isSearch(cond) && cond.Type().String() == "bool" {
+			idx = 0
+		} else if bo, isB := cond.(*ssa.BinOp); isB && isSearch(bo.X) {
+			if kc, isK := bo.Y.(*ssa.Const); isK {
+				kv, _ := IntOf64(kc)
+				switch {
+				case bo.Op == token.GEQ && kv == 0, bo.Op == token.NEQ && kv == -1, bo.Op == token.GTR && kv == -1:
+					idx = 0
+				case bo.Op == token.LSS && kv == 0, bo.Op == token.EQL && kv == -1:
+					idx = 1
+				}
+			}
+		}
+		if idx < 0 {
+			return
+		}
+		if neg {
+			idx = 1 - idx
+		}
+		if s := ifi.Block().Succs[idx]; len(s.Instrs) > 0 {
+			out = append(out, s.Instrs[0])
+		}
+	})
+	if len(out) == 0 {
+		return Sel{}
+	}
+	return Sel{Name: fmt.Sprintf("branch: library search finds byte %d in %s[a:b]", k, base), F: func(*Prog, *ssa.Function) []ssa.Instruction { return out }}
 }
